@@ -21,6 +21,11 @@ typedef __int128 WIDE_t;
 typedef signed __CPROVER_bitvector[I_BITS] I_t;
 typedef signed __CPROVER_bitvector[WIDE_BITS] WIDE_t;
 #endif
+#if I_BITS == 64
+#define CM_I_MAX 9223372036854775807L
+#else
+#define CM_I_MAX ((I_t)(((WIDE_t)1 << (I_BITS - 1)) - 1))
+#endif
 #if U_BITS == 64
 typedef unsigned long U_t;
 #else
